@@ -3,6 +3,7 @@ package crashrig
 import (
 	"errors"
 	"fmt"
+	"runtime"
 	"strings"
 
 	meta "github.com/nspcc-dev/neofs-node/pkg/local_object_storage/metabase"
@@ -126,6 +127,8 @@ type World struct {
 	OnOp func(op Op, phase string, err error) // phase "begin" / "end"
 	// Stats
 	PutErrs, Races, RacesParked int
+	// Panics of shard operations (see guard).
+	Panics []string
 	Log                         []string
 }
 
@@ -321,6 +324,23 @@ func (w *World) Draw(t *rapid.T, al Allow, inner bool) Op {
 	return op
 }
 
+// guard runs a shard operation and converts a runtime panic of the code under
+// test into an operation error (recorded in Panics): a crash of the operation
+// is a defect, but not a violation of C09/C15, and the history goes on as it
+// would after the process-level recover of the caller.
+func (w *World) guard(f func() error) (err error) {
+	defer func() {
+		if p := recover(); p != nil {
+			if _, ok := p.(runtime.Error); !ok {
+				panic(p) // rapid / harness panics pass through
+			}
+			w.Panics = append(w.Panics, fmt.Sprint(p))
+			err = fmt.Errorf("PANIC: %v", p)
+		}
+	}()
+	return f()
+}
+
 // Apply runs op on the live shard (between Rig.Begin and Rig.End, which the
 // caller does) and returns a harness error, if any. Errors of the shard
 // operations themselves are legitimate outcomes and only recorded.
@@ -377,12 +397,12 @@ func (w *World) Apply(op Op) error {
 			w.Present[op.C][op.I] = false
 		}
 	case KDel:
-		opErr = sh.Delete(uni.Cnr(op.C), []oid.ID{uni.OID(RegID(op.C, op.I))})
+		opErr = w.guard(func() error { return sh.Delete(uni.Cnr(op.C), []oid.ID{uni.OID(RegID(op.C, op.I))}) })
 		w.Present[op.C][op.I] = false
 		w.Pending[op.C][op.I] = false
 		w.MaybeCached[op.C][op.I] = false
 	case KGC:
-		sh.VerifGCPass()
+		opErr = w.guard(func() error { sh.VerifGCPass(); return nil })
 		w.Pending = [NCnr][NReg]bool{}
 	case KEpoch:
 		d := uint64(op.Exp)
